@@ -465,6 +465,29 @@ def concatenate(arrs, axis=0):
   return Arr(out)
 
 
+def stack(arrs, axis=0):
+  if axis != 0:
+    raise Unsupported('stack axis')
+  ds = [_to_data(a) for a in arrs]
+  if len(set(len(d) for d in ds)) > 1:
+    raise ValueError('all input arrays must have the same shape')
+  return Arr([list(d) for d in ds])
+
+
+def resize(a, new_shape):
+  """numpy.resize: the flattened input repeated cyclically (zeros only for an
+  empty input)."""
+  flat = array(a).flatten().data if _is_seq(a) else [a]
+  if isinstance(new_shape, (tuple, list)):
+    if len(new_shape) != 1:
+      raise Unsupported('resize to ndim > 1')
+    new_shape = new_shape[0]
+  n = new_shape.__index__() if symex.is_sym(new_shape) else int(new_shape)
+  if not flat:
+    return Arr([0] * n)
+  return Arr([flat[i % len(flat)] for i in range(n)])
+
+
 def hstack(arrs):
   ds = [_to_data(a) for a in arrs]
   if all(not isinstance(d[0], list) for d in ds if d):
